@@ -70,14 +70,14 @@ def tiny_engine(fl, n, ranges, values=None):
     return e
 
 
-def ob_grid(scope, n, vmax, inactive=None, label=""):
+def ob_grid(scope, n, vmax, inactive=None, label="", vmin=1):
     def run(ob):
         fl = install()
         set_mode("R")
         v = SymInt.var("v")
         R = [(rvar(f"lo{i}"), rvar(f"hi{i}")) for i in range(n)]
         held = rvar("held")
-        pre = [v.i >= 1, v.i <= vmax] + [lo.v < hi.v for lo, hi in R]
+        pre = [v.i >= vmin, v.i <= vmax] + [lo.v < hi.v for lo, hi in R]
         ins = {"v": v, "held": held}
         for i, (lo, hi) in enumerate(R):
             ins[f"lo{i}"] = lo
@@ -93,9 +93,9 @@ def ob_grid(scope, n, vmax, inactive=None, label=""):
                               "e.rule_blocks.append(fl.RuleBlock('rb', activation=fl.General(), rules=[fl.Rule.create('if X0 is a then O is a', e)]))",
                               "if inactive is not None: ivs[inactive].value = held",
                               "active = None if inactive is None else {iv for i, iv in enumerate(ivs) if i != inactive}",
-                              "captured = {}",
+                              "captured = {'calls': 0}",
                               "import numpy; orig = numpy.savetxt",
-                              "numpy.savetxt = lambda w, X, **kw: captured.update(X=numpy.array(X, dtype=float), kw=kw)",
+                              "numpy.savetxt = lambda w, X, **kw: captured.update(X=numpy.array(X, dtype=float), kw=kw, calls=captured['calls'] + 1)",
                               "try:",
                               f"    fl.FldExporter().write_from_scope(e, None, v, fl.FldExporter.ScopeOfValues.{'AllVariables' if all_scope else 'EachVariable'}, active)",
                               "finally: numpy.savetxt = orig",
@@ -106,7 +106,8 @@ def ob_grid(scope, n, vmax, inactive=None, label=""):
                               "digits = list(itertools.product(*[range(K) if i != inactive else [0] for i in range(n)]))",
                               "exp = [[(R[i][0] + d[i] * ((R[i][1] - R[i][0]) / max(1, K - 1))) if i != inactive else held for i in range(n)] for d in digits]",
                               "bad = None",
-                              "if X.shape[0] != len(exp): bad = '%d rows, the grid of K=%d values per input has %d' % (X.shape[0], K, len(exp))",
+                              "if captured['calls'] != 1: bad = 'the table was written in %d pieces (each with its own header)' % captured['calls']",
+                              "elif X.shape[0] != len(exp): bad = '%d rows, the grid of K=%d values per input has %d' % (X.shape[0], K, len(exp))",
                               "elif not same(X[:, :n], exp, 1e-9): bad = 'grid values/order differ: %r vs %r' % (X[:, :n].tolist()[:6], exp[:6])",
                               f"verdict(bad is not None, '{scope} variables = %d, %d inputs: %s' % (v, n, bad))"])
 
@@ -123,15 +124,18 @@ def ob_grid(scope, n, vmax, inactive=None, label=""):
             with inst.shadow(fl.exporter, int=sym_int, pow=sym_pow):
                 fl.FldExporter().write_from_scope(e, None, v, sc, active)
             X, kw = inst.NP.savetxt_calls[-1]
-            return X, kw
+            return X, kw, len(inst.NP.savetxt_calls)
 
         npaths = 0
-        for p in ob.paths(pre, body):
+        for p in ob.paths(pre, body, incremental=vmin > 100):
             npaths += 1
             if p.exc is not None:
                 ob.unexpected(pre, p, label, ins, rp)
                 continue
-            X, kw = p.result
+            X, kw, ncalls = p.result
+            if ncalls != 1:
+                ob.prove(pre, p, False, f"{label}: the table was written in {ncalls} pieces (each with its own header)", ins, rp)
+                continue
             A = core._obj(X)
             rows = A.shape[0]
             K = z3.Int("K!oracle")
@@ -343,6 +347,11 @@ def obligations(tier, seed):
         obs.append((f"grid/each-variable/n{n}", ob_grid("each", n, 4 if n < 3 else 3, label=f"grid/each-variable/n{n}")))
     obs.append(("grid/all-variables/n2/inactive0", ob_grid("all", 2, 20, inactive=0, label="grid/all-variables/n2/inactive0")))
     obs.append(("grid/each-variable/n3/inactive1", ob_grid("each", 3, 3, inactive=1, label="grid/each-variable/n3/inactive1")))
+    # grids of more than a thousand rows (one table, one header, whatever the size): a window of values around 1024 and 33 x 33
+    obs.append(("grid/each-variable/n1/large", ob_grid("each", 1, 1025, label="grid/each-variable/n1/large", vmin=1025)))
+    if tier != "quick":
+        obs.append(("grid/all-variables/n2/large", ob_grid("all", 2, 1089, label="grid/all-variables/n2/large", vmin=1089)))
+        obs.append(("grid/each-variable/n1/larger", ob_grid("each", 1, 2049, label="grid/each-variable/n1/larger", vmin=2049)))
     for L in (1, 2, 3):
         obs.append((f"increment/len{L}", ob_increment(L, f"increment/len{L}")))
     for headers, inputs, outputs in itertools.product((True, False), repeat=3):
